@@ -326,7 +326,7 @@ func clientControls(c *Ctx, r *Report, prop string) {
 	r.controls[prop+"/client-negative-control-silent"] = len(g) == 0
 	want := map[string][]string{
 		"C07": {"C07/R7.3:recogniser-arg", "C07/R7.2:result-copy"},
-		"C08": {"C08/R8.1:timer-in-loop", "C08/R8.4:oversize-condition", "C08/R8.3:class:raw-transport:SetWriteDeadline"},
+		"C08": {"C08/R8.1:timer-in-loop", "C08/R8.4:oversize-condition", "C08/R8.3:class:raw-transport:SetWriteDeadline", "C08/R8.3:cause-not-wrapped"},
 		"C19": {"C19/R19.1:beforewrite-arg", "C19/R19.2:afterread-chunk", "C19/R19.3:beforeparse-on-error"},
 		"C12": {"C07/R7.3:recogniser-arg"},
 		"C14": {"C07/R7.2:result-copy"},
